@@ -48,4 +48,17 @@ CLAIMED = {
             "The `time` crate is not trusted for range handling (that is what is checked) but its RFC 3339 lexer is; leap "
             "second :60 may be rejected or read as :59 (named deviation).",
             "DESIGN.md §3 C13"),
+    "C10": ("TLA+ spec DidSyntax (W3C DID/DID-URL grammar over character classes, decision table) evaluated by TLC; every row "
+            "executed on CoreDID/DIDUrl in several concrete variants; recorded random strings validated by TLC (one-sided)",
+            "model_checking",
+            "TLC enumerates all class strings up to length 4 (quick) / 5 (thorough) over an adversarial 18-class alphabet, a "
+            "structured component product, prefix variants and all (base, component, segment) setter rows, evaluating the "
+            "spec's transcription of the grammar (validity + decomposition) and its recomposition/cleanliness invariants; the "
+            "harness runs each row through every parse entry point and compares: accepted => valid, components as computed, "
+            "verbatim string form, re-parse identity, plain DID without URL parts; setters re-parse or leave unchanged; "
+            "Eq/Ord/Hash coherence over accepted pairs. Random longer strings recorded from the real parsers are validated "
+            "by TLC against the same grammar.",
+            "One-sided (as the property): false rejections are counted only. did_url_parser is NOT trusted (that is how its "
+            "percent-encoding defects were found); class representatives assumed interchangeable.",
+            "DESIGN.md §3 C10"),
 }
